@@ -122,7 +122,8 @@ class Gen:
         if T == "int":
             opts += ["const"]
             if d > 0:
-                opts += ["add", "ifexp", "tupidx", "dictattr", "count", "first", "called", "helper"]
+                opts += ["add", "ifexp", "tupidx", "dictattr", "count", "first", "called", "helper",
+                         "firstattr", "firstidx", "method"]
         elif T == "bool":
             opts += ["cmp", "cmp", "and"] if d > 0 else ["cmp0"]
         elif T[0] == "seq":
@@ -215,6 +216,22 @@ class Gen:
         if o == "first":
             s = self.expr(("seq", T), env, d - 1)
             return None if s is None else (f"First({s})" if r.random() < 0.6 else f"{s}.First()")
+        if o == "firstattr":  # First(seq of records).attr  /  seq.First().attr
+            sq = self.expr(("seq", ("rec", "jet")), env, d - 1)
+            if sq is None:
+                return None
+            f = f"First({sq})" if r.random() < 0.5 else f"{sq}.First()"
+            return f"{f}.{r.choice(['pt', 'eta'])}"
+        if o == "firstidx":  # First(seq of tuples)[i]
+            sq = self.expr(("seq", ("tup", ["int", ("rec", "jet")])), env, d - 1)
+            if sq is None:
+                return None
+            f = f"First({sq})" if r.random() < 0.5 else f"{sq}.First()"
+            return f"{f}[0]" if r.random() < 0.6 else f"{f}[1].pt"
+        if o == "method":  # a method call with an argument on a record (also on First(...))
+            rec = self.expr(("rec", "jet"), env, d - 1)
+            k = E("int")
+            return None if None in (rec, k) else f"{rec}.scale({k})"
         if o == "called":
             # a helper lambda; the same helper text may be called again elsewhere (in this query
             # or a later one of the run) with another argument - what an inlined Python helper
@@ -357,9 +374,16 @@ def gen_data(rng):
              for _ in range(rng.randint(0, 4))] for _ in range(3)] + [[]]
 
 
+class JetRec(le.Rec):
+    "A jet record with one method taking an argument."
+
+    def scale(self, k):
+        return self.pt * k
+
+
 def build_data(spec):
     return [le.Seq([le.Rec(x=e["x"], w=e["w"],
-                           jets=le.Seq([le.Rec(**j) for j in e["jets"]])) for e in d])
+                           jets=le.Seq([JetRec(**j) for j in e["jets"]])) for e in d])
             for d in spec]
 
 
